@@ -51,6 +51,8 @@ Next ==
   /\ \A a, b \in Seqs : PrintT(<<"S", Setup("A", a) \o Setup("B", b), <<"cmp", "A", "B", <<>>>>, "ok">>)
   /\ \A a \in Seqs : PrintT(<<"S", Setup("A", a), <<"cmp", "A", "A", <<>>>>, "ok">>)
   /\ \A a \in Seqs, x \in Alphabet \cup {0} : PrintT(<<"S", Setup("A", a), <<"erase_val", "A", "-", <<x>>>>, "ok">>)
+  \* values of another type: equal to the element value x (1), or equal to nothing but converting to x (2)
+  /\ \A a \in Seqs, x \in Alphabet \cup {0}, h \in 1..2 : PrintT(<<"S", Setup("A", a), <<"erase_val", "A", "-", <<x, h>>>>, "ok">>)
   /\ \A a \in Seqs, k \in 0..3 : PrintT(<<"S", Setup("A", a), <<"erase_if", "A", "-", <<k, 2>>>>, "ok">>)
   /\ done' = TRUE
 Spec == Init /\ [][Next]_done
